@@ -7,7 +7,7 @@
 From Coq Require Import List Arith Bool NArith.
 From FFSM2 Require Import Model.TaskList Model.BitArray Model.BitStream Model.Plan Model.Ancestors Model.Machine
   Proofs.BitArrayProofs Proofs.TaskListProofs Proofs.TaskListRun Proofs.PlanProofs Proofs.MachineFrame Proofs.MachinePlan Proofs.MachineLife Proofs.GuardProofs Proofs.CycleProofs Proofs.PlanStep
-  Proofs.SerialProofs Proofs.LogProofs Proofs.MachineTop Model.Multi Generated.InitFacts Proofs.ConstructProofs Proofs.LifeMonitor Proofs.ActivationRounds Proofs.IndexSafety Proofs.FeatureProofs Model.Script Proofs.Contract Proofs.Histories Proofs.StatusBits.
+  Proofs.SerialProofs Proofs.LogProofs Proofs.MachineTop Model.Multi Generated.InitFacts Proofs.ConstructProofs Proofs.LifeMonitor Proofs.ActivationRounds Proofs.IndexSafety Proofs.FeatureProofs Model.Script Proofs.Contract Proofs.Histories Proofs.StatusBits Proofs.Worlds.
 Import ListNotations.
 
 (* a freshly constructed core is core_init whatever the storage held before *)
@@ -52,4 +52,46 @@ Theorem C17_instances_independent :
          addressed P op <> j -> get_inst P (wstep P cfg orc_of w op) j = get_inst P w j.
 Proof. exact (instances_independent). Qed.
 Print Assumptions C17_instances_independent.
+
+(* in every in-contract multi-instance history every live instance - original, copy, copy of a copy, instance loaded
+   from another - satisfies the machine invariant *)
+Theorem C17_copies_and_loaded_instances_keep_the_invariant :
+  forall (P : Type) (cfg : config) (orc_of : nat -> oracle P),
+         wf_cfg cfg ->
+         (forall i : nat, wf_oracle P cfg (orc_of i)) ->
+         forall (slots : nat) (ops : list (wop P)),
+         first_violation P cfg orc_of 0 {| insts := repeat None slots; glog := [] |} ops = None ->
+         WInv P cfg (wrun P cfg orc_of slots ops).
+Proof. exact (wrun_inv). Qed.
+Print Assumptions C17_copies_and_loaded_instances_keep_the_invariant.
+
+Theorem C17_one_operation_on_the_world :
+  forall (P : Type) (cfg : config) (orc_of : nat -> oracle P),
+         wf_cfg cfg ->
+         (forall i : nat, wf_oracle P cfg (orc_of i)) ->
+         forall (w : world P) (op : wop P),
+         WInv P cfg w -> wop_okb P cfg w op = true -> WInv P cfg (wstep P cfg orc_of w op).
+Proof. exact (wstep_inv). Qed.
+Print Assumptions C17_one_operation_on_the_world.
+
+(* copy construction at any point of any accepted multi-instance script: the new instance's core is the original's (so
+   active state, isActive table, outstanding request, previous transition, plan and serialized form are equal:
+   observe), no callback ran on it, and the original is untouched *)
+Theorem C17_every_copy_equals_its_original :
+  forall (P : Type) (cfg : config) (orc_of : nat -> oracle P),
+         wf_cfg cfg ->
+         (forall i : nat, wf_oracle P cfg (orc_of i)) ->
+         forall (slots : nat) (pre : list (wop P)) (i j : nat) (post : list (wop P)),
+         first_violation P cfg orc_of 0 {| insts := repeat None slots; glog := [] |}
+           (pre ++ WCopy P i j :: post) = None ->
+         i < slots ->
+         exists sj sc : mstate P,
+           get_inst P (wrun P cfg orc_of slots pre) j = Some sj /\
+           get_inst P (wrun P cfg orc_of slots (pre ++ [WCopy P i j])) i = Some sc /\
+           co P sc = co P sj /\
+           tr P sc = [] /\
+           observe P cfg (co P sc) = observe P cfg (co P sj) /\
+           get_inst P (wrun P cfg orc_of slots (pre ++ [WCopy P i j])) j = Some sj.
+Proof. exact (every_copy_equals_its_original). Qed.
+Print Assumptions C17_every_copy_equals_its_original.
 
